@@ -13,3 +13,4 @@ impl<T: ?Sized> Acyclic for T {}
 /// or defines its own `crate::error` when the extracted code constructs specific `ErrorKind` payloads.
 pub mod err;
 pub mod num;
+pub mod symstr;
